@@ -283,15 +283,15 @@ Proof.
 Qed.
 
 Lemma compress_block_total : forall KS r T C b hint,
-  0 < KS -> WF KS C -> ts_le T C -> T <= b_time b -> fits KS (concat (b_txs b)) ->
+  0 < KS -> WF KS C -> ts_le T C -> T <= b_time b -> fits KS (concat (b_items b)) ->
   exists cb C', compress_block KS r C b hint = Okay (cb, C').
 Proof.
   intros KS r T C b hint H0 Hwf Hts Ht Hfit. unfold compress_block.
-  set (t := b_time b) in *. set (its := concat (b_txs b)) in *.
+  set (t := b_time b) in *. set (its := concat (b_items b)) in *.
   destruct (prepare_total KS r t T C its Hwf Hts Ht its (pconst []) (incl_refl _) (pinv_init r t C its))
     as (acc & Ep & Hp). rewrite Ep.
   destruct (prepare_spec _ _ _ _ _ _ Ep) as [_ Hcov].
-  destruct (compress_txs_total KS r t T C its acc H0 Hwf Hts Ht Hfit Hp Hcov (b_txs b)
+  destruct (compress_txs_total KS r t T C its acc H0 Hwf Hts Ht Hfit Hp Hcov (b_items b)
               (into_compression_context KS C acc) (incl_refl _) (cinv_init KS C acc H0 Hwf)
               (cnt_init KS r t C its acc)) as (ctxs & cx & Ec & _ & _).
   rewrite Ec. destruct (finalize C cx hint t) as [regs st']. eauto.
@@ -302,8 +302,8 @@ Lemma ts_le_after_block : forall KS r T C b hint cb C',
   ts_le T C -> T <= b_time b -> compress_block KS r C b hint = Okay (cb, C') -> ts_le (b_time b) C'.
 Proof.
   intros KS r T C b hint cb C' Hts Ht H. unfold compress_block in H.
-  destruct (prepare r (b_time b) C (pconst []) (concat (b_txs b))) as [acc|]; [|discriminate].
-  destruct (compress_txs KS r (b_time b) C (into_compression_context KS C acc) (b_txs b)) as [[ctxs cx]|];
+  destruct (prepare r (b_time b) C (pconst []) (concat (b_items b))) as [acc|]; [|discriminate].
+  destruct (compress_txs KS r (b_time b) C (into_compression_context KS C acc) (b_items b)) as [[ctxs cx]|];
     [|discriminate].
   unfold finalize in H. inversion H; subst cb C'. clear H.
   intros s key v kt Hl. unfold write_to_registry in Hl. rewrite !pget_pinit, reg_write_all in Hl.
@@ -332,7 +332,7 @@ Fixpoint history_all (KS r : N) (C D : state) (ops : list (op * per (list N))) :
       | Fail _ => False
       | Okay (cb, C') =>
           match decompress_block KS r D cb with
-          | Okay (b', D') => b' = b /\ tables_eq C' D' /\ history_all KS r C' D' rest
+          | Okay (b', D') => b' = strip b /\ tables_eq C' D' /\ history_all KS r C' D' rest
           | Fail _ => False
           end
       end
@@ -349,7 +349,7 @@ Fixpoint times_mono (T : N) (ops : list (op * per (list N))) : Prop :=
 (* termination side condition of CacheEvictor::next_key: per block and keyspace the number of
    distinct non-default values is below the number of writable keys *)
 Definition op_fits (KS : N) (o : op) : Prop :=
-  match o with OBlock b => fits KS (concat (b_txs b)) | OCursor _ _ => True end.
+  match o with OBlock b => fits KS (concat (b_items b)) | OCursor _ _ => True end.
 
 Lemma roundtrip_history_all : forall KS r ops C D T,
   0 < KS -> WF KS C -> tables_eq C D -> ts_le T C ->
@@ -375,6 +375,58 @@ Proof.
 Qed.
 
 (* ------------------------------------------------------------------ *)
+(* exact reproduction: blocks without malleable fields                 *)
+
+Fixpoint history_exact (KS r : N) (C D : state) (ops : list (op * per (list N))) : Prop :=
+  match ops with
+  | [] => True
+  | (OCursor s k, _) :: rest => history_exact KS r (set_cursor C s k) D rest
+  | (OBlock b, h) :: rest =>
+      match compress_block KS r C b h with
+      | Fail _ => False
+      | Okay (cb, C') =>
+          match decompress_block KS r D cb with
+          | Okay (b', D') => b' = b /\ tables_eq C' D' /\ history_exact KS r C' D' rest
+          | Fail _ => False
+          end
+      end
+  end.
+
+(* no transaction of the block carries a non-default malleable (compress(skip)) field *)
+Definition canonical (b : block) : Prop := Forall (fun x => t_mal x = 0) (b_txs b).
+Definition op_canonical (o : op) : Prop := match o with OBlock b => canonical b | OCursor _ _ => True end.
+
+Lemma strip_canonical : forall b, canonical b -> strip b = b.
+Proof.
+  intros [h t txs] Hc. unfold strip, canonical in *; cbn [b_hdr b_time b_txs] in *. f_equal.
+  induction Hc as [|[m its] l Hm _ IH]; cbn [map]; [reflexivity|].
+  cbn [t_mal] in Hm. subst m. rewrite IH. reflexivity.
+Qed.
+
+Lemma history_exact_of_all : forall KS r ops C D,
+  Forall (fun oh => op_canonical (fst oh)) ops -> history_all KS r C D ops -> history_exact KS r C D ops.
+Proof.
+  intros KS r. induction ops as [|[o h] ops IH]; intros C D Hc H; cbn [history_all history_exact] in *; [exact Logic.I|].
+  inversion Hc as [|? ? Ho Hc']; subst. cbn [fst] in Ho. destruct o as [b|s k]; cbn [op_canonical] in Ho.
+  - destruct (compress_block KS r C b h) as [[cb C']|]; [|exact H].
+    destruct (decompress_block KS r D cb) as [[b' D']|]; [|exact H].
+    destruct H as (E & Ht & Hr). rewrite (strip_canonical b Ho) in E. auto.
+  - auto.
+Qed.
+
+Lemma roundtrip_history_exact_all : forall KS r ops C D T,
+  0 < KS -> WF KS C -> tables_eq C D -> ts_le T C ->
+  Forall (fun oh => op_wf KS (fst oh)) ops ->
+  Forall (fun oh => op_fits KS (fst oh)) ops ->
+  times_mono T ops ->
+  Forall (fun oh => op_canonical (fst oh)) ops ->
+  history_exact KS r C D ops.
+Proof.
+  intros KS r ops C D T H0 Hwf Heq Hts H1 H2 H3 H4.
+  apply history_exact_of_all; [exact H4|]. eapply roundtrip_history_all; eassumption.
+Qed.
+
+(* ------------------------------------------------------------------ *)
 (* the specification decompressor replayed on a trace (Pcheck)         *)
 
 Lemma list_eqb_eq : forall A (f : A -> A -> bool), (forall x y, f x y = true <-> x = y) ->
@@ -390,54 +442,80 @@ Proof.
   change (ks_to_N s =? ks_to_N s') with (ks_eqb s s'). rewrite ks_eqb_eq, N.eqb_eq.
   split; [intros [-> ->]; reflexivity|intros E; inversion E; auto].
 Qed.
+Lemma tx_eqb_eq : forall x y, tx_eqb x y = true <-> x = y.
+Proof.
+  intros [m its] [m' its']. unfold tx_eqb; cbn [t_mal t_items].
+  rewrite Bool.andb_true_iff, N.eqb_eq, (list_eqb_eq _ _ item_eqb_eq).
+  split; [intros [-> ->]; reflexivity|intros E; inversion E; auto].
+Qed.
 Lemma block_eqb_eq : forall a b, block_eqb a b = true <-> a = b.
 Proof.
-  intros [h t x] [h' t' x']. unfold block_eqb, block_eqb_items; cbn [b_hdr b_time b_txs].
+  intros [h t x] [h' t' x']. unfold block_eqb; cbn [b_hdr b_time b_txs].
   rewrite !Bool.andb_true_iff, !N.eqb_eq.
-  rewrite (list_eqb_eq _ _ (list_eqb_eq _ _ item_eqb_eq)).
+  rewrite (list_eqb_eq _ _ tx_eqb_eq).
   split; [intros [[-> ->] ->]; reflexivity|intros E; inversion E; auto].
+Qed.
+Lemma canonicalb_spec : forall b, canonicalb b = true <-> canonical b.
+Proof.
+  intros b. unfold canonicalb, canonical. rewrite forallb_forall, Forall_forall.
+  split; intros H x Hx; specialize (H x Hx); [apply N.eqb_eq|apply N.eqb_eq]; exact H.
 Qed.
 
 (* what the checker accepts, as a proposition *)
-Fixpoint ReplaySpec (KS r : N) (S : state) (ops : list op) (os : list obs) : Prop :=
+Fixpoint ReplayCore (KS r : N) (S : state) (ops : list op) (os : list obs) : Prop :=
   match ops, os with
   | [], [] => True
-  | OCursor _ _ :: ops', BCursor :: os' => ReplaySpec KS r S ops' os'
+  | OCursor _ _ :: ops', BCursor :: os' => ReplayCore KS r S ops' os'
   | OBlock b :: ops', BErr ctab dtab :: os' =>
-      tabs_eqb ctab S = true /\ tabs_eqb dtab S = true /\ ReplaySpec KS r S ops' os'
-  | OBlock b :: ops', BOk keys regs dstatus hdr_eq txs_eq ctab dtab :: os' =>
-      exists S', decompress_block KS r S (mkcblock (b_hdr b) (b_time b) regs keys) = Okay (b, S') /\
-                 dstatus = 0 /\ hdr_eq = true /\ txs_eq = true /\
+      tabs_eqb ctab S = true /\ tabs_eqb dtab S = true /\ ReplayCore KS r S ops' os'
+  | OBlock b :: ops', BOk keys regs dstatus hdr_eq txs_eq ids_eq ctab dtab :: os' =>
+      exists S', decompress_block KS r S (mkcblock (b_hdr b) (b_time b) regs keys) = Okay (strip b, S') /\
+                 dstatus = 0 /\ hdr_eq = true /\ ids_eq = true /\ (canonical b -> txs_eq = true) /\
                  tabs_eqb ctab S' = true /\ tabs_eqb dtab S' = true /\
-                 ReplaySpec KS r S' ops' os'
+                 ReplayCore KS r S' ops' os'
   | _, _ => False
   end.
 
-Lemma replay_okb_sound_all : forall KS r ops os S, replay_okb KS r S ops os = 1 <-> ReplaySpec KS r S ops os.
+Lemma replay_core_sound_all : forall KS r ops os S, replay_core KS r S ops os = 1 <-> ReplayCore KS r S ops os.
 Proof.
   intros KS r. induction ops as [|o ops IH]; intros os S.
-  - destruct os; cbn [replay_okb ReplaySpec]; split; try tauto; try discriminate.
-  - destruct o as [b|s k]; destruct os as [|ob os]; cbn [replay_okb ReplaySpec]; try (split; [discriminate|tauto]).
-    + destruct ob as [keys regs ds he te ctab dtab|ctab dtab|]; try (split; [discriminate|tauto]).
+  - destruct os; cbn [replay_core ReplayCore]; split; try tauto; try discriminate.
+  - destruct o as [b|s k]; destruct os as [|ob os]; cbn [replay_core ReplayCore]; try (split; [discriminate|tauto]).
+    + destruct ob as [keys regs ds he te ie ctab dtab|ctab dtab|]; try (split; [discriminate|tauto]).
       * destruct (decompress_block KS r S (mkcblock (b_hdr b) (b_time b) regs keys)) as [[b' S']|e] eqn:Ed.
-        -- destruct (block_eqb b' b) eqn:Eb; cbn [negb].
+        -- destruct (block_eqb b' (strip b)) eqn:Eb; cbn [negb].
            ++ apply block_eqb_eq in Eb. subst b'.
-              destruct (ds =? 0) eqn:E1; destruct he; destruct te; cbn [andb negb];
-                try (split; [discriminate|intros (S2 & E & H1 & H2 & H3 & _); try discriminate;
-                                          apply N.eqb_neq in E1; congruence]).
-              destruct (tabs_eqb ctab S') eqn:E2; destruct (tabs_eqb dtab S') eqn:E3; cbn [andb negb];
-                try (split; [discriminate|intros (S2 & E & _ & _ & _ & H4 & H5 & _); inversion E; subst; congruence]).
-              rewrite IH. apply N.eqb_eq in E1. split.
-              ** intros H. exists S'. auto 10.
-              ** intros (S2 & E & _ & _ & _ & _ & _ & H). inversion E; subst. exact H.
+              assert (Hflag : (ds =? 0) && he && ie && (te || negb (canonicalb b)) = true <->
+                              ds = 0 /\ he = true /\ ie = true /\ (canonical b -> te = true)).
+              { rewrite !Bool.andb_true_iff, N.eqb_eq, Bool.orb_true_iff, Bool.negb_true_iff.
+                rewrite <- canonicalb_spec. destruct te; destruct (canonicalb b); intuition congruence. }
+              destruct ((ds =? 0) && he && ie && (te || negb (canonicalb b))) eqn:Ef; cbn [negb].
+              ** destruct (proj1 Hflag eq_refl) as (F1 & F2 & F3 & F4).
+                 destruct (tabs_eqb ctab S') eqn:E2; destruct (tabs_eqb dtab S') eqn:E3; cbn [andb negb];
+                   try (split; [discriminate|intros (S2 & E & _ & _ & _ & _ & H4 & H5 & _); inversion E; subst; congruence]).
+                 rewrite IH. split.
+                 --- intros H. exists S'. auto 10.
+                 --- intros (S2 & E & _ & _ & _ & _ & _ & _ & H). inversion E; subst. exact H.
+              ** split; [discriminate|]. intros (S2 & E & F1 & F2 & F3 & F4 & _).
+                 assert (Hx : false = true) by (apply Hflag; auto). discriminate Hx.
            ++ split; [discriminate|]. intros (S2 & E & _). inversion E; subst.
-              assert (block_eqb b b = true) by (apply block_eqb_eq; reflexivity). congruence.
+              assert (block_eqb (strip b) (strip b) = true) by (apply block_eqb_eq; reflexivity). congruence.
         -- split; [discriminate|]. intros (S2 & E & _). discriminate.
       * destruct (tabs_eqb ctab S) eqn:E2; destruct (tabs_eqb dtab S) eqn:E3; cbn [andb];
           try (split; [discriminate|intros (H1 & H2 & _); congruence]).
         rewrite IH. tauto.
-    + destruct ob as [keys regs ds he te ctab dtab|ctab dtab|]; try (split; [discriminate|tauto]).
+    + destruct ob as [keys regs ds he te ie ctab dtab|ctab dtab|]; try (split; [discriminate|tauto]).
       apply IH.
+Qed.
+
+Definition ReplaySpec (KS r : N) (S : state) (ops : list op) (os : list obs) : Prop :=
+  ReplayCore KS r S ops os /\ Forall (fun o => obs_exact o = true) os.
+
+Lemma replay_okb_sound_all : forall KS r ops os S, replay_okb KS r S ops os = 1 <-> ReplaySpec KS r S ops os.
+Proof.
+  intros KS r ops os S. unfold replay_okb, ReplaySpec. rewrite <- replay_core_sound_all, Forall_forall, <- forallb_forall.
+  destruct (replay_core KS r S ops os) as [|[p|p|]]; destruct (forallb obs_exact os);
+    split; intros H; try discriminate H; try (destruct H as [H1 H2]; try discriminate H1; try discriminate H2); auto.
 Qed.
 
 (* ------------------------------------------------------------------ *)
@@ -447,23 +525,24 @@ Qed.
 Definition ex_tx (a b c : N) : list item := [(KAddr, a); (KAddr, b); (KAsset, c)].
 Definition ex_ops : list (op * per (list N)) :=
   [ (OCursor KAddr 1, pconst []);
-    (OBlock (mkblock 1 10 [ex_tx 1 2 1]), pconst []);       (* keys 2, 0: wraps *)
-    (OBlock (mkblock 2 12 [ex_tx 2 3 1]), pconst []);       (* 2 reused, 3 new: key 1 *)
-    (OBlock (mkblock 3 20 [ex_tx 2 1 0]), pconst []);       (* both expired (retention 5) *)
-    (OBlock (mkblock 4 20 [ex_tx 3 4 1]), pconst []) ].     (* evicts live keys *)
+    (OBlock (mkblock 1 10 [mktx 0 (ex_tx 1 2 1)]), pconst []);       (* keys 2, 0: wraps *)
+    (OBlock (mkblock 2 12 [mktx 0 (ex_tx 2 3 1)]), pconst []);       (* 2 reused, 3 new: key 1 *)
+    (OBlock (mkblock 3 20 [mktx 0 (ex_tx 2 1 0)]), pconst []);       (* both expired (retention 5) *)
+    (OBlock (mkblock 4 20 [mktx 0 (ex_tx 3 4 1)]), pconst []) ].     (* evicts live keys *)
 
 Example ex_hypotheses :
   Forall (fun oh => op_wf 3 (fst oh)) ex_ops /\ Forall (fun oh => op_fits 3 (fst oh)) ex_ops /\
-  times_mono 0 ex_ops.
+  times_mono 0 ex_ops /\ Forall (fun oh => op_canonical (fst oh)) ex_ops.
 Proof.
-  split; [|split].
+  split; [|split; [|split]].
   - repeat constructor; cbn; try lia; discriminate.
   - repeat constructor; intros s; destruct s; vm_compute; reflexivity.
   - cbn. lia.
+  - repeat constructor.
 Qed.
 
 Example ex_keys :
-  map (fun o => match o with BOk keys _ _ _ _ _ _ => keys | _ => [] end)
+  map (fun o => match o with BOk keys _ _ _ _ _ _ _ => keys | _ => [] end)
       (run_history 3 5 st_empty st_empty (map fst ex_ops) (map snd ex_ops))
   = [ [];
       [[(KAddr, 2); (KAddr, 0); (KAsset, 0)]];
